@@ -666,6 +666,15 @@ def run(chk):
     dr = W.methods["receiveMsg_Drive"]
     ok = any(isinstance(n, ast.Assign) and any(is_self_attr(x, "start_driving") for x in n.targets) and source.is_const(n.value, True) for n in walk_body(dr))
     chk.ob("O1.7", "Drive handler sets start_driving", ok, dr, "")
+    # the flag means "a start wake-up is pending": once it is set the handler must arm exactly that wake-up on every path and must not start driving itself
+    gdr = cfg_of(dr)
+    sets_ = [n for n in walk_body(dr) if isinstance(n, ast.Assign) and any(is_self_attr(x, "start_driving") for x in n.targets) and source.is_const(n.value, True)]
+    wkn = [gdr.node_of(n) for n in walk_body(dr) if isinstance(n, ast.Call) and last_attr(n.func) == "wakeupAfter"]
+    direct = [n for n in walk_body(dr) if isinstance(n, ast.Call) and u(n.func) == "self.drive"]
+    ok = bool(sets_) and bool(wkn) and all(gdr.must_pass(gdr.node_of(s_), wkn, normal_only=True) for s_ in sets_) and not direct
+    chk.ob("O1.7", "Drive handler: flag set => start wake-up armed on every path, no direct drive()", ok, direct[0] if direct else (sets_[0] if sets_ else dr),
+           "" if ok else ("drive() is called with start_driving still set: the next polling wake-up is taken for the start wake-up and the worker advances while its clients are running"
+                          if direct else "a path sets the flag without arming the wake-up"), key=f"{_D}:Worker.receiveMsg_Drive:flag-implies-wakeup")
 
     # ---- O1.9 index advance / join-point predicate ------------------------------------------------------------------------------------------
     chk.rule("O1.9", "the worker's row index advances by exactly one per read (current := next; next += 1) and `at join point` means ALL entries at the "
